@@ -39,6 +39,9 @@ type sqlController struct {
 	failAt  int // fail the k-th statement (1-based) with errSQLInjected
 	crashAt int // os.Exit(77) right before the k-th statement
 	keepSQL bool
+	// table fault: the first INSERT/DELETE on failTable fails
+	failTable  string
+	tableFired bool
 }
 
 var sqlCtl = &sqlController{}
@@ -49,6 +52,20 @@ func (c *sqlController) begin(failAt, crashAt int) {
 	c.mu.Lock()
 	c.enabled, c.seq, c.log, c.failAt, c.crashAt = true, 0, nil, failAt, crashAt
 	c.mu.Unlock()
+}
+
+func (c *sqlController) beginTableFault(table string) {
+	c.mu.Lock()
+	c.enabled, c.seq, c.log, c.failAt, c.crashAt, c.failTable, c.tableFired = true, 0, nil, 0, 0, table, false
+	c.mu.Unlock()
+}
+
+func (c *sqlController) endTableFault() bool {
+	c.mu.Lock()
+	defer c.mu.Unlock()
+	c.enabled, c.failTable = false, ""
+	c.log = nil
+	return c.tableFired
 }
 
 func (c *sqlController) end() []sqlStmtRec {
@@ -97,6 +114,10 @@ func (c *sqlController) gate(conn int, kind, table, q string, nargs int) (int, e
 	}
 	var err error
 	if c.failAt != 0 && k == c.failAt && kind != "ROLLBACK" {
+		err = errSQLInjected
+	}
+	if c.failTable != "" && !c.tableFired && table == c.failTable && (kind == "INSERT" || kind == "DELETE") {
+		c.tableFired = true
 		err = errSQLInjected
 	}
 	r := sqlStmtRec{Seq: k, Conn: conn, Kind: kind, Table: table, Args: nargs, Err: err != nil}
